@@ -791,6 +791,7 @@ func (e *Exec) spawn(name string, role int, f func()) *thread {
 	return t
 }
 
+//go:norace
 func threadMain(e *Exec, t *thread, f func()) {
 	defer e.wg.Done()
 	defer func() {
